@@ -239,41 +239,54 @@ def run(cx):
         Pc = Prov(fn, cx.F, cut_loops=True); cc = Canon(fn, Pc)
         IDX = ('SubWithOverflow(15, each(Range::Range{0, 16})).0', 'each(rev(Range::Range{0, 16}))')
         sts = _I.stores(fn, cx.F, 'a', through_deref=True) + _I.stores(fn, cx.F, 'a')
-        cx.add('I-CTR', 'block_add_one/walk', len(sts) == 1 and sts[0][0] in IDX, 'the increment walks all 16 bytes from index 15 down to 0 (stores: %s)' % [x[0] for x in sts][:4], fn.loc())
-        idx = sts[0][0] if len(sts) == 1 else IDX[0]
-        # each byte is read in the version left by the earlier visits (which wrote other indices) or as passed in
-        # (a byte reached through the slice iterator's element reference carries no version: it is written through the
-        # same reference it was read from)
-        val = sts[0][1] if len(sts) == 1 else ''
-        BYTE = '$a[%s]#{E|[%s]}' % (idx, idx)
-        if BYTE not in val and idx == IDX[1]:
-            BYTE = '$a[%s]' % idx
-        import re as _re
-        m_o = _re.match(r'^overflowing_add\(%s, (.*)\)\.0$' % _re.escape(BYTE), val)
-        m_w = _re.match(r'^wrapping_add\(%s, 1\)$' % _re.escape(BYTE), val)
-        addend = m_o.group(1) if m_o else ('1' if m_w else '')
-        # the carry variable: initialised to 1, reassigned only from the overflow flag on the edge where the loop goes on
-        carry_ok = addend == '1'
-        if addend.startswith('var:') and addend.endswith('@in'):
-            cl = [i_ for i_, l_ in enumerate(fn.locals) if l_.get('name') == addend[4:-3]]
-            if len(cl) == 1:
-                defs = [cc.c(norm(Pc.rvalue(st['rv'], b_, i_, 0))) for b_, i_, st in fn.stmts() if st['k'] == 'assign' and not st['lhs']['p'] and st['lhs']['l'] == cl[0]]
-                carry_ok = sorted(set(defs)) == sorted({'1', '(overflowing_add(%s, %s).1 as u8)' % (BYTE, addend)})
-        cx.add('I-CTR', 'block_add_one/carry', carry_ok, 'the addend is 1 for the last byte and the carry-out (which is 1 whenever the walk goes on) for the bytes above: %s' % FR.short(addend, 120), fn.loc())
-        cx.add('I-CTR', 'block_add_one/store', bool(m_o or m_w), 'each byte is replaced by the wrapped sum at the same index: %s' % FR.short(val, 120), fn.loc())
-        stop_ok = False
-        loopb = set().union(*[c_ for _, c_ in fn.natural_loops()]) if fn.natural_loops() else set()
-        for b_, p_, te_, fe_ in G.bool_switches(fn, Pc):
-            if not p_.args or b_ not in loopb:
-                continue
-            t0 = cc.c(p_.args[0])
-            if m_o and t0 == 'overflowing_add(%s, %s).1' % (BYTE, addend) and p_.kind == 'unknown':
-                goes_on = fe_ if p_.neg else te_          # flag set -> next byte
-            elif (m_o or m_w) and p_.kind == 'eq' and sorted(cc.c(a_) for a_ in p_.args) == sorted(['0', val if val.startswith('wrapping_add') else '%s' % val]):
-                goes_on = fe_ if p_.neg else te_          # new byte == 0 -> next byte
-            elif m_w and p_.kind == 'eq' and sorted(cc.c(a_) for a_ in p_.args) == sorted(['0', BYTE]):
-                goes_on = fe_ if p_.neg else te_          # the byte just written is read back
-            else:
-                continue
-            stop_ok = all(tgt in loopb for _, tgt in goes_on) and all(tgt not in loopb or fn.blocks[tgt]['term']['k'] == 'return' for _, tgt in (te_ if goes_on is fe_ else fe_))
-        cx.add('I-CTR', 'block_add_one/stop', stop_ok, 'propagation goes on exactly when the byte wrapped and stops at the first byte without carry-out', fn.loc())
+        elem_assigns = [1 for b_, i_, st_ in fn.stmts() if st_['k'] == 'assign' and any(isinstance(q_, dict) and ('idx' in q_ or 'cidx' in q_) for q_ in st_['lhs']['p'])]
+        if not elem_assigns:
+            # the counter handled as the 128-bit big-endian integer it is: a[..16] = BE128(BE128(a[..16]) + 1 mod 2^128),
+            # which is the specification itself (walk, carry, store and stop are all consequences)
+            cps = [(cn.c(x[0]), cn.c(x[1])) for x in (G.call_args(fn, P, b_) for b_ in FR.calls_of(fn, 'copy_from_slice')) if len(x) == 2]
+            W = 'index_mut($a, RangeTo::RangeTo{16})'
+            direct = [c_ for c_ in cps if c_[0] in (W, '$a') and c_[1] in tuple('to_be_bytes:u128(wrapping_add(from_be_bytes:u128(%s), 1))' % r_ for r_ in ('[%s]' % W, W, '[index($a, RangeTo::RangeTo{16})]', 'unwrap(try_into(%s))' % W, 'unwrap(try_into(index($a, RangeTo::RangeTo{16})))'))]
+            others = [c_ for c_ in cps if c_ not in direct and (c_[0].startswith(W) or c_[0] == '$a')]
+            if len(direct) == 1 and not others:
+                for inst_ in ('walk', 'carry', 'store', 'stop'):
+                    cx.hold('I-CTR', 'block_add_one/' + inst_, 'the counter block is rewritten as BE128(BE128(a[..16]) + 1 mod 2^128): the 128-bit big-endian increment itself', fn.loc())
+                sts = None
+        if sts is not None:
+            cx.add('I-CTR', 'block_add_one/walk', len(sts) == 1 and sts[0][0] in IDX, 'the increment walks all 16 bytes from index 15 down to 0 (stores: %s)' % [x[0] for x in sts][:4], fn.loc())
+            idx = sts[0][0] if len(sts) == 1 else IDX[0]
+            # each byte is read in the version left by the earlier visits (which wrote other indices) or as passed in
+            # (a byte reached through the slice iterator's element reference carries no version: it is written through the
+            # same reference it was read from)
+            val = sts[0][1] if len(sts) == 1 else ''
+            BYTE = '$a[%s]#{E|[%s]}' % (idx, idx)
+            if BYTE not in val and idx == IDX[1]:
+                BYTE = '$a[%s]' % idx
+            import re as _re
+            m_o = _re.match(r'^overflowing_add\(%s, (.*)\)\.0$' % _re.escape(BYTE), val)
+            m_w = _re.match(r'^wrapping_add\(%s, 1\)$' % _re.escape(BYTE), val)
+            addend = m_o.group(1) if m_o else ('1' if m_w else '')
+            # the carry variable: initialised to 1, reassigned only from the overflow flag on the edge where the loop goes on
+            carry_ok = addend == '1'
+            if addend.startswith('var:') and addend.endswith('@in'):
+                cl = [i_ for i_, l_ in enumerate(fn.locals) if l_.get('name') == addend[4:-3]]
+                if len(cl) == 1:
+                    defs = [cc.c(norm(Pc.rvalue(st['rv'], b_, i_, 0))) for b_, i_, st in fn.stmts() if st['k'] == 'assign' and not st['lhs']['p'] and st['lhs']['l'] == cl[0]]
+                    carry_ok = sorted(set(defs)) == sorted({'1', '(overflowing_add(%s, %s).1 as u8)' % (BYTE, addend)})
+            cx.add('I-CTR', 'block_add_one/carry', carry_ok, 'the addend is 1 for the last byte and the carry-out (which is 1 whenever the walk goes on) for the bytes above: %s' % FR.short(addend, 120), fn.loc())
+            cx.add('I-CTR', 'block_add_one/store', bool(m_o or m_w), 'each byte is replaced by the wrapped sum at the same index: %s' % FR.short(val, 120), fn.loc())
+            stop_ok = False
+            loopb = set().union(*[c_ for _, c_ in fn.natural_loops()]) if fn.natural_loops() else set()
+            for b_, p_, te_, fe_ in G.bool_switches(fn, Pc):
+                if not p_.args or b_ not in loopb:
+                    continue
+                t0 = cc.c(p_.args[0])
+                if m_o and t0 == 'overflowing_add(%s, %s).1' % (BYTE, addend) and p_.kind == 'unknown':
+                    goes_on = fe_ if p_.neg else te_          # flag set -> next byte
+                elif (m_o or m_w) and p_.kind == 'eq' and sorted(cc.c(a_) for a_ in p_.args) == sorted(['0', val if val.startswith('wrapping_add') else '%s' % val]):
+                    goes_on = fe_ if p_.neg else te_          # new byte == 0 -> next byte
+                elif m_w and p_.kind == 'eq' and sorted(cc.c(a_) for a_ in p_.args) == sorted(['0', BYTE]):
+                    goes_on = fe_ if p_.neg else te_          # the byte just written is read back
+                else:
+                    continue
+                stop_ok = all(tgt in loopb for _, tgt in goes_on) and all(tgt not in loopb or fn.blocks[tgt]['term']['k'] == 'return' for _, tgt in (te_ if goes_on is fe_ else fe_))
+            cx.add('I-CTR', 'block_add_one/stop', stop_ok, 'propagation goes on exactly when the byte wrapped and stops at the first byte without carry-out', fn.loc())
